@@ -24,9 +24,14 @@
 (* (an empty container-like solver object, anything with __len__ == 0 or   *)
 (* __bool__ False) is a callable.  Deviation switch NoneByIdentity (TRUE = *)
 (* intended): FALSE tests `not method` and runs the default instead.       *)
+(* Every functional has its OWN table: a name that some other functional   *)
+(* knows (rootfinder's "anderson_acc", equilibrium's "gd", quad's "rk4")   *)
+(* is an unknown name here.  Deviation switch OwnTable (TRUE = intended):  *)
+(* FALSE looks the name up in one registry shared by the three optimize    *)
+(* functionals.                                                            *)
 (***************************************************************************)
 EXTENDS Naturals, Sequences, FiniteSets, TLC
-CONSTANTS LowerFirst, AnyCallable, DefaultTakesOptions, NoneByIdentity
+CONSTANTS LowerFirst, AnyCallable, DefaultTakesOptions, NoneByIdentity, OwnTable
 RF == {"newton", "broyden1", "broyden2", "linearmixing"}
 Functionals == {"solve", "symeig", "rootfinder", "equilibrium", "minimize", "solve_ivp", "quad", "mcquad", "interp1d", "squad"}
 Names == [f \in Functionals |->
@@ -48,7 +53,10 @@ Early == [f \in Functionals |->
 Default == [f \in Functionals |->
    CASE f = "solve" -> "exactsolve" [] f = "symeig" -> "exacteig" [] f \in {"rootfinder", "equilibrium", "minimize"} -> "broyden1"
      [] f = "solve_ivp" -> "rk45" [] f = "quad" -> "leggauss" [] f = "mcquad" -> "mh" [] f \in {"interp1d", "squad"} -> "cspline"]
-ArgClasses == {"none", "exact", "mixedcase", "unknown", "emptyname", "callable", "noncallable"}
+ArgClasses == {"none", "exact", "mixedcase", "unknown", "foreign", "emptyname", "callable", "noncallable"}
+AllNames == UNION {Names[g] : g \in Functionals}
+OptFamily == {"rootfinder", "equilibrium", "minimize"}
+SharedRegistry == UNION {Names[g] : g \in OptFamily}
 CallableKinds == {"function", "lambda", "partial", "instance", "boundmethod", "falsyinstance"}
 Falsy(cls, ck) == cls = "emptyname" \/ (cls = "callable" /\ ck = "falsyinstance")
 Routines == {"function", "lambda", "boundmethod"}
@@ -60,6 +68,7 @@ Resolve(f, cls, nm, ck) ==
    CASE cls = "none" \/ (~NoneByIdentity /\ Falsy(cls, ck)) -> Default[f]
      [] cls = "exact" -> nm
      [] cls = "mixedcase" -> IF LowerFirst[f] \/ nm \notin Early[f] THEN nm ELSE "raise"    \* an early comparison that misses sends the name to the wrong table
+     [] cls = "foreign" -> IF ~OwnTable /\ f \in OptFamily /\ nm \in SharedRegistry THEN nm ELSE "raise"
      [] cls = "callable" -> IF AnyCallable \/ ck \in Routines THEN "callable" ELSE "raise"
      [] OTHER -> "raise"
 
@@ -67,14 +76,15 @@ Resolve(f, cls, nm, ck) ==
 OptionsReach(f, cls) == IF cls = "none" THEN DefaultTakesOptions[f] ELSE TRUE
 VARIABLES f, cls, nm, ck, outcome, opts
 vars == <<f, cls, nm, ck, outcome, opts>>
-Init == /\ f \in Functionals /\ cls \in ArgClasses /\ nm \in Names[f]
-        /\ (cls \notin {"exact", "mixedcase"} => nm = CHOOSE x \in Names[f] : TRUE)     \* the name only matters for these classes
+Init == /\ f \in Functionals /\ cls \in ArgClasses /\ nm \in AllNames
+        /\ (cls = "foreign" => nm \notin Names[f]) /\ (cls # "foreign" => nm \in Names[f])
+        /\ (cls \notin {"exact", "mixedcase", "foreign"} => nm = CHOOSE x \in Names[f] : TRUE)     \* the name only matters for these classes
         /\ ck \in CallableKinds /\ (cls # "callable" => ck = "function")               \* the kind only matters for callables
         /\ outcome = Resolve(f, cls, nm, ck) /\ opts = OptionsReach(f, cls)
 Next == UNCHANGED vars
 Spec == Init /\ [][Next]_vars
 CaseInsensitive == cls = "mixedcase" => outcome = nm
-UnknownRejected == cls \in {"unknown", "emptyname", "noncallable"} => outcome = "raise"
+UnknownRejected == cls \in {"unknown", "foreign", "emptyname", "noncallable"} => outcome = "raise"
 CallableAccepted == cls = "callable" => outcome = "callable"
 DefaultIsBuiltIn == cls = "none" => outcome \in Names[f]
 OptionsDelivered == outcome # "raise" => opts
